@@ -924,6 +924,23 @@ class Piece:
                 p = toks[lps[occ - 1][1]].end
                 self._add(p, p, "\n" + text + "\n", arule)
                 continue
+            if where == "loop_iter":
+                # ("loop_iter", None, k, "name:"): name the ghost iterator of `for` loop #k (`for x in name: EXPR`), whatever EXPR is spelled like
+                if occ < 1 or occ > len(lps):
+                    raise Undecided(f"{fn.name}: loop #{occ} not found")
+                kw_, ko_ = lps[occ - 1]
+                if toks[kw_].text != "for":
+                    raise Undecided(f"{fn.name}: loop #{occ} is not a `for` loop")
+                j_ = kw_ + 1
+                while j_ < ko_ and not (toks[j_].text == "in" and toks[j_].kind == "ident"):
+                    if toks[j_].text in OPEN:
+                        j_ = match_close(toks, j_)
+                    j_ += 1
+                if j_ >= ko_:
+                    raise Undecided(f"{fn.name}: loop #{occ}: no `in`")
+                p = toks[j_ + 1].start
+                self._add(p, p, text + " ", arule)
+                continue
             if where == "exits":
                 # before every `return` of the body and (unit functions only) at the end of the body
                 for k in range(kb, k1):
@@ -987,6 +1004,10 @@ class Piece:
                         raise Undecided(f"{fn.name}: anchor `{snippet}` #{occ} not found")
             if where in ("before", "after"):
                 p = fstart + pos + (len(snippet) if where == "after" else 0)
+                if os.environ.get("VERIF_ANCHOR_DEBUG") and where == "before" and text.strip().endswith(":"):
+                    for n_, (kw_, ko_) in enumerate(lps):
+                        if toks[kw_].start < p < toks[ko_].start:
+                            print(f"ANCHORDBG\t{self.unit.name}\t{fn.name}\t{snippet}\t{n_ + 1}\t{text.strip()}")
             elif where == "after_open":
                 kt = next(k for k in range(kb, k1 + 1) if toks[k].start >= fstart + pos)
                 while toks[kt].text != "{":
